@@ -5,8 +5,10 @@
    model can loop: termination_needs_valid_utf8; a Rust &str is always valid UTF-8.)
    No panic: the tokenizer reaches none of its panic sites (slicing, indexing, advance, unwrap) on valid
    UTF-8, with any callback that does not panic itself; the real callback preserves the builder invariant
-   Core and can only reach the debug_assert of ShortRange::from in resolve_namespaces (tree_order longer
-   than u32::MAX), see DESIGN.md D17.
+   Core and reaches no panic site either; the final root-children check is covered through the arena
+   invariant of C02.  Together: parse_no_panic and parse_terminates, i.e. parse returns Ok or Err for every
+   valid UTF-8 input and every limit that fits the u32 field.  (The one site that could not be excluded,
+   ShortRange::from in resolve_namespaces, was a genuine defect: D17, repaired.)
    Statements are pinned here (copied verbatim from the proof files by tools/pin_props.py);
    each is re-proved by `exact` and followed by Print Assumptions. *)
 From Coq Require Import Ascii String.
@@ -14,8 +16,20 @@ From Coq Require Import List NArith Bool PeanoNat Sorted.
 Import ListNotations.
 From RX Require Import Generated.
 From RX.Model Require Import Base CharClass Stream Tokenizer Doc Builder Parse Api.
-From RX.Proofs Require Import TermStream TermUtf8 TermParse NoPanicUtf8 NoPanicStream NoPanicTokenizer NoPanicBuilder NoPanicBuilderCtx NoPanicText NoPanicParse.
+From RX.Proofs Require Import TermStream TermUtf8 TermParse TermFinal NoPanicUtf8 NoPanicStream NoPanicTokenizer NoPanicBuilder NoPanicBuilderCtx NoPanicText NoPanicParse NoPanicFinal.
 Open Scope N_scope.
+
+(* ---- Proofs/NoPanicFinal.v ---- *)
+Theorem C01_parse_no_panic :
+  forall text opt p, valid_utf8_b text = true -> nodes_limit opt <= u32_max -> parse text opt <> Panic p.
+Proof. exact parse_no_panic. Qed.
+Print Assumptions C01_parse_no_panic.
+
+(* ---- Proofs/TermFinal.v ---- *)
+Theorem C01_parse_terminates :
+  forall text opt, valid_utf8_b text = true -> parse text opt <> OutOfFuel.
+Proof. exact parse_terminates. Qed.
+Print Assumptions C01_parse_terminates.
 
 (* ---- Proofs/TermParse.v ---- *)
 Theorem C01_tokenizer_terminates :
@@ -49,7 +63,7 @@ Proof. exact parse_document_terminates. Qed.
 Print Assumptions C01_parse_document_terminates.
 
 (* ---- Proofs/TermUtf8.v ---- *)
-Module G1.
+Module G3.
 Local Notation safe := TermStream.safe.
 Theorem C01_termination_needs_valid_utf8 :
   valid_utf8_b overlong_lt_text = false /\
@@ -59,10 +73,10 @@ Theorem C01_termination_needs_valid_utf8 :
 Proof. exact termination_needs_valid_utf8. Qed.
 Print Assumptions C01_termination_needs_valid_utf8.
 
-End G1.
+End G3.
 
 (* ---- Proofs/NoPanicTokenizer.v ---- *)
-Module G2.
+Module G4.
 Local Notation token := Tokenizer.token.
 Theorem C01_tokenizer_no_panic :
   forall (text : bytes) (C : Type) (ev : token -> C -> res C) (dtd : bool) (c : C) p,
@@ -72,42 +86,28 @@ Theorem C01_tokenizer_no_panic :
 Proof. exact tokenizer_no_panic. Qed.
 Print Assumptions C01_tokenizer_no_panic.
 
-End G2.
+End G4.
 
 (* ---- Proofs/NoPanicParse.v ---- *)
-Module G3.
+Module G5.
 Local Notation TokOk := NoPanicTokenizer.TokOk.
-Theorem C01_token_panic_only_debug_assert :
-  forall text tok c p,
-  valid_utf8_b text = true -> Core text c -> TokOk text tok -> (tok_pre tok = true -> InTag c) ->
-  token text tok c = Panic p -> p = P_debug_assert.
-Proof. exact token_panic_only_debug_assert. Qed.
-Print Assumptions C01_token_panic_only_debug_assert.
+Theorem C01_token_no_panic :
+  forall text tok c p, valid_utf8_b text = true -> Core text c -> NoPanicTokenizer.TokOk text tok ->
+  (tok_pre tok = true -> InTag c) -> token text tok c <> Panic p.
+Proof. exact token_no_panic. Qed.
+Print Assumptions C01_token_no_panic.
 
 Theorem C01_token_preserves_core :
   forall text tok c c',
-  valid_utf8_b text = true -> Core text c -> TokOk text tok -> (tok_pre tok = true -> InTag c) ->
+  valid_utf8_b text = true -> Core text c -> NoPanicTokenizer.TokOk text tok -> (tok_pre tok = true -> InTag c) ->
   token text tok c = Ok c' -> Core text c' /\ TagPost tok c c'.
 Proof. exact token_preserves_core. Qed.
 Print Assumptions C01_token_preserves_core.
 
-Theorem C01_parse_document_token_panic_only_debug_assert :
-  forall text opt c0 p,
-  valid_utf8_b text = true -> nodes_limit opt <= u32_max -> init_context text opt = Ok c0 ->
-  parse_document text context (token text) (allow_dtd opt) c0 = Panic p -> p = P_debug_assert.
-Proof. exact parse_document_token_panic_only_debug_assert. Qed.
-Print Assumptions C01_parse_document_token_panic_only_debug_assert.
+Theorem C01_parse_document_token_no_panic :
+  forall text opt c p, valid_utf8_b text = true -> nodes_limit opt <= u32_max ->
+  init_context text opt = Ok c -> parse_document text context (token text) (allow_dtd opt) c <> Panic p.
+Proof. exact parse_document_token_no_panic. Qed.
+Print Assumptions C01_parse_document_token_no_panic.
 
-End G3.
-
-(* ---- Proofs/NoPanicParse.v ---- *)
-Theorem C01_token_no_panic_partial :
-  forall text tok c p, valid_utf8_b text = true -> CtxInv text c -> TokOk text tok -> token text tok c <> Panic p.
-Proof. exact token_no_panic_partial. Qed.
-Print Assumptions C01_token_no_panic_partial.
-
-Theorem C01_token_preserves_CtxInv :
-  forall text tok c c', valid_utf8_b text = true -> CtxInv text c -> TokOk text tok ->
-  token text tok c = Ok c' -> Core text c' /\ InTag c'.
-Proof. exact token_preserves_CtxInv. Qed.
-Print Assumptions C01_token_preserves_CtxInv.
+End G5.
